@@ -8,6 +8,8 @@ use std::panic::{catch_unwind, AssertUnwindSafe};
 
 #[path = "tables.rs"]
 mod tables;
+#[path = "traced.rs"]
+pub mod traced;
 #[path = "ops_index.rs"]
 mod ops_index;
 
@@ -45,6 +47,7 @@ fn dispatch(rt: &tokio::runtime::Runtime, input: &Value) -> Value {
 			Err(_) => json!({"rejected": true}),
 		},
 		"config_load" => rt.block_on(crate::main_event_loop::verif::config_load(input)),
+		"concurrent_attempts" => crate::main_event_loop::verif::concurrent_attempts(input),
 		"first_request" => rt.block_on(crate::main_event_loop::verif::first_request(input)),
 		"rl_run" => rt.block_on(crate::endpoint::verif::rl_run(input)),
 		_ => match ops_index::dispatch(op, rt, input) {
